@@ -1,13 +1,16 @@
 #!/bin/bash
-# usage: tools_mutants.sh <seeded-id> <check-id> [more check ids]  : applies seeded/<id>/patch.diff to /repo, runs the quick checks, undoes it.
+# usage: tools_mutants.sh <seeded-id> <check-id>...  : builds a scratch worktree of /repo HEAD + seeded/<id>/patch.diff,
+# runs the quick checks against it (VERIF_REPO), removes the worktree.  (Equivalent to applying the patch to /repo, without
+# disturbing other runs.)
 set -u
 sid=$1; shift
+wt=/tmp/mut_$sid
+git -C /repo worktree remove --force $wt >/dev/null 2>&1
+git -C /repo worktree add -q $wt HEAD || exit 2
+if ! git -C $wt apply /verif/seeded/$sid/patch.diff; then echo "PATCH DOES NOT APPLY: $sid"; git -C /repo worktree remove --force $wt; exit 2; fi
 cd /verif
-if ! git -C /repo diff --quiet; then echo "REPO DIRTY"; exit 2; fi
-if ! git -C /repo apply --check /verif/seeded/$sid/patch.diff 2>/dev/null; then echo "PATCH DOES NOT APPLY: $sid"; exit 2; fi
-git -C /repo apply /verif/seeded/$sid/patch.diff
 for c in "$@"; do
-  out=$(timeout 900 ./check $c --tier quick 2>&1 | grep -v conda | grep "^VIOLATION\|^violation\|^KNOWN\|^$c \|HARNESS" | cut -c1-300)
+  out=$(VERIF_REPO=$wt timeout 900 ./check $c --tier quick 2>&1 | grep -v conda | grep "^VIOLATION\|^violation\|^KNOWN\|^$c \|HARNESS" | cut -c1-260)
   echo "== seeded/$sid vs $c"; echo "$out"
 done
-git -C /repo checkout -- .
+git -C /repo worktree remove --force $wt
